@@ -85,7 +85,7 @@ def gen_job(verif_seed, tier, index):
         if job.get("coord_text") is None and g.random() < 0.3:
             jobgen.add_start(job, g)
         if job.get("coord_text") is None and not job["opts"].get("start") and g.random() < 0.06 \
-                and jobgen.prepare_ligands(job, g):
+                and jobgen.prepare_ligands(job, g, lig_first=g.random() < 0.4):
             # -lig without any input structure: hosts (sometimes rings named in -cycles) and ligands are all built
             job["opts"].setdefault("box", [8.0, 8.0, 8.0]) if "density" not in job["opts"] else None
             if jobgen.finish_ligands(job, g):
